@@ -225,6 +225,8 @@ func (e *Env) Exec(ctx context.Context, worker string, op Op) Res {
 			return e.execBulkOne(ctx, worker, op, "CREATE_TRANSACTION", body)
 		}
 		r = e.St.Do(ctx, worker, "POST", prefix+"/transactions?"+q.Encode(), body, hdr)
+	case "blocks":
+		return e.RunBlocks(ctx, worker, op.ID)
 	case "import":
 		exp := e.St.Do(ctx, worker, "POST", "/v2/"+op.Src+"/logs/export", nil, nil)
 		if exp.Status != 200 {
@@ -562,7 +564,7 @@ func (e *Env) Observe(l string) (LedgerObs, error) {
 	moves := e.hasFeature(l, "MOVES_HISTORY", "ON")
 	eff := moves && e.hasFeature(l, "MOVES_HISTORY_POST_COMMIT_EFFECTIVE_VOLUMES", "SYNC")
 	obs.Flags = Flags{Moves: moves, Eff: eff, EffSync: e.hasFeature(l, "MOVES_HISTORY_POST_COMMIT_EFFECTIVE_VOLUMES", "SYNC"),
-		Hash: e.hasFeature(l, "HASH_LOGS", "SYNC"),
+		Hash: e.hasFeature(l, "HASH_LOGS", "SYNC"), Async: e.hasFeature(l, "HASH_LOGS", "ASYNC"),
 		AMH: e.hasFeature(l, "ACCOUNT_METADATA_HISTORY", "SYNC"), TMH: e.hasFeature(l, "TRANSACTION_METADATA_HISTORY", "SYNC")}
 	txPath := "/v2/" + l + "/transactions?pageSize=100&expand=volumes"
 	if eff {
